@@ -520,6 +520,8 @@ def r04_8(ctx: Ctx, rule: str = "R04.8") -> None:
 
 
 def run(ctx: Ctx) -> None:
+    from . import c12 as _c12
+    _c12.r12_6(ctx, rule="R04.11")  # testzip must give its verdict for stream archives too
     from . import c06 as _c06x
     _c06x.dispatch_forwards_skip(ctx, "R04.10")
     shared.exits_do_not_swallow(ctx, "R04.9")
